@@ -333,6 +333,16 @@ def rule_k6(ctx, F, parts=("rank", "slots", "final", "side", "init")):
                            and sym(hir.strip(y_["l"])) == r_] if blk_ else []
                     if not ws_ or min(hir.order_key(y_) for y_ in ws_) > hir.order_key(x_):
                         early.append(hir.line(x_))
+        # ... and every slot that is assigned is folded in (an assigned slot that never reaches the hash leaves that square out)
+        for y_, anc_ in hir.walk(body):
+            if y_.get("k") == "Assign" and hir.strip(y_["l"]).get("k") == "Index" and "past_hashes" in hir.fmt(sym(hir.strip(y_["l"])["e"]), 40):
+                slot_ = sym(hir.strip(y_["l"]))
+                blk_ = [a_ for a_ in anc_ if a_.get("k") == "Block"]
+                xs_ = [x_ for x_, _ in hir.walk(blk_[-1]) if x_.get("k") == "AssignOp" and x_.get("op") == "^=" and sym(x_["r"]) == slot_] if blk_ else []
+                whole_ = any(c_.get("k") == "MethodCall" and c_.get("name") in ("fold", "for_each", "reduce") and "past_hashes" in hir.fmt(sym(c_["recv"]), 120)
+                             for c_, _ in hir.walk(body))       # (all 64 slots folded in one pass after the scan)
+                if not xs_ and not whole_:
+                    early.append(hir.line(y_))
         ctx.check("C04.K6", "slot-key-folded-in-after-the-slot-is-assigned", not early, fn=fn["path"], file=fn["file"], line=early[0] if early else None,
                   what="the importer xors a per-square slot into the hash before the slot was given the square's key", found=early)
         ctx.check("C04.K6", "scan-squares-are-(row,col)", not sw, fn=fn["path"], file=fn["file"], line=sw[0] if sw else None,
